@@ -968,8 +968,17 @@ import _c07_target as tg
 def target_search(ctx, shim, r, nfonts, ntexts):
     """the search for the attachment target: GDEF classes independent of the coverages, lookup flags, mark filtering
     sets, several subtables / lookups, marks inside and after real ligatures, default ignorables in between.
-    The expected target is computed by tg.expected() from the recipe alone."""
+    The expected target is computed by tg.expected() from the recipe alone.  Departures that belong to one of the
+    three upstream-inherited classes (tg.CLASS_TEXT; decided per failing glyph pair by tg.check) are reported once per
+    class and run — smallest input, with the number of occurrences — under "class" in the replay; the permanent
+    witness of each class runs first through the same oracle."""
     groups, meta = [], []
+    for cls, (rec, sem, text, d, flags) in tg.witnesses().items():
+        fid = "W" + str(len(groups))
+        groups.append([f"font {fid} {fontbuild.hexfont(rec)}", f"font {fid}p {fontbuild.hexfont(tg.stripped(rec))}",
+                       tg.shape_req(fid, d, text, flags), tg.shape_req(fid + "p", d, text, flags),
+                       f"fontdrop {fid}", f"fontdrop {fid}p"])
+        meta.append((rec, sem, [(text, d, flags)], cls))
     for f in range(nfonts):
         cursive = f % 6 == 5
         rec, sem = tg.target_font(r, cursive=cursive)
@@ -985,36 +994,52 @@ def target_search(ctx, shim, r, nfonts, ntexts):
             lines += [tg.shape_req(f"T{f}", d, text, flags), tg.shape_req(f"U{f}", d, text, flags)]
             ms.append((text, d, flags))
         lines += [f"fontdrop T{f}", f"fontdrop U{f}"]
-        groups.append(lines); meta.append((rec, sem, ms))
+        groups.append(lines); meta.append((rec, sem, ms, None))
     outs = vlib.run_groups(shim, groups, timeout=900)
-    stats = {"shapes": 0, "attached": 0, "attached_non_mark": 0, "default_ignorable_between": 0, "with_ligature": 0, "with_multiple_subst": 0,
-             "markbase_subtables_disagree_on_sequence_glyph(not judged)": 0,
-             "mark_inside_ligature": 0, "cursive_cross_axis_only": 0,
-             "cursive_pair_with_gdef_mark(main axis not judged)": 0, "cursive_exit_reused(earlier pair not judged)": 0, "per_dir": {d: 0 for d in DIRS}}
+    stats = {"shapes": 0, "attached": 0, "attached_non_mark": 0, "default_ignorable_between": 0, "with_ligature": 0,
+             "with_multiple_subst": 0, "shared_cache_alternatives_possible": 0, "mark_inside_ligature": 0,
+             "cursive_cross_axis_only": 0, "witness_shows_its_class": {}, "class_occurrences": {},
+             "per_dir": {d: 0 for d in DIRS}}
     bad = 0
-    for (rec, sem, ms), o, g in zip(meta, outs, groups):
+    classes = {}              # class -> [count, (len(text), description, replay)]
+    for (rec, sem, ms, wcls), o, g in zip(meta, outs, groups):
         if o[0] != "ok" or o[1] != "ok":
             ctx.violation(f"generated target-search font rejected: {o[0]} {o[1]}", {"stage": "search", "stream": "gpos-target",
                           "font_line": g[0][:200]}); continue
         for t, (text, d, flags) in enumerate(ms):
             so, s0 = o[2 + 2 * t], o[3 + 2 * t]
-            why = tg.check(sem, text, d, flags, so, s0, stats)
+            why, found = tg.check(sem, text, d, flags, so, s0, stats)
+            rp = {"stage": "search", "stream": "gpos-target", "font_line": g[0], "plain_font_line": g[1],
+                  "request": g[2 + 2 * t], "plain_request": g[3 + 2 * t], "observed": so, "plain": s0,
+                  "text": text, "dir": d, "flags": flags, "sem": sem, "recipe": rec}
+            if wcls is not None:
+                stats["witness_shows_its_class"][wcls] = any(c == wcls for c, _ in found)
+            for cls, desc in found:
+                e = classes.setdefault(cls, [0, None])
+                e[0] += 1
+                if e[1] is None or len(text) < e[1][0]:
+                    e[1] = (len(text), desc, rp)
             if why:
                 bad += 1
                 if bad <= 2:
-                    ctx.violation(why, {"stage": "search", "stream": "gpos-target", "font_line": g[0], "plain_font_line": g[1],
-                                        "request": g[2 + 2 * t], "plain_request": g[3 + 2 * t], "observed": so, "plain": s0,
-                                        "text": text, "dir": d, "flags": flags, "sem": sem, "recipe": rec})
+                    ctx.violation(why, rp)
+    for cls in sorted(classes):
+        n, (_, desc, rp) = classes[cls]
+        stats["class_occurrences"][cls] = n
+        ctx.violation(f"{tg.CLASS_TEXT[cls]} — {n} occurrence(s) in this run (permanent witness included), smallest: {desc}",
+                      dict(rp, **{"class": cls, "occurrences": n}))
     ctx.note_search("gpos-target", stats["shapes"], stats["attached"], detail=stats,
                     rule="generated fonts whose GDEF classes are drawn independently of the coverages (mark coverage with base / "
                          "ligature / unclassified / default-ignorable glyphs, base coverage with marks), mark-to-base / "
                          "mark-to-ligature / mark-to-mark lookups (1-5, 1-2 subtables each) or one cursive lookup, with random "
                          "IgnoreBaseGlyphs / IgnoreLigatures / IgnoreMarks / mark-filtering-set / mark-attachment-type flags, "
-                         "optional GSUB ligatures (marks inside and after) x random texts with default ignorables x 4 directions "
-                         "x PRESERVE_DEFAULT_IGNORABLES on/off through shape(); the expected target of every glyph is computed "
-                         "from GDEF + flags + coverages alone; oracle: anchors of every expected attachment coincide in the pen "
-                         "model, glyphs without a target keep the offsets they have without the lookups, advances unchanged; "
-                         "non-trivial = expected attachments checked")
+                         "optional GSUB MultipleSubst + ligatures (marks inside and after) x random texts with default "
+                         "ignorables x 4 directions x PRESERVE_DEFAULT_IGNORABLES on/off through shape(); the expected target "
+                         "of every glyph is computed from GDEF + flags + coverages alone; oracle: anchors of every expected "
+                         "attachment coincide in the pen model (cursive: cross axis always, main axis when the skipped glyphs "
+                         "in between have no advance), glyphs without a target keep the offsets they have without the lookups, "
+                         "advances unchanged; a departure is attributed to one of three upstream-inherited classes only on the "
+                         "evidence of the failing glyph pair itself; non-trivial = expected attachments checked")
 
 
 def pos_groups(shim, r, nfonts, nbufs):
@@ -1066,30 +1091,6 @@ def classify_pos(ln, out):
     else:
         ks.append(out[:40])
     return ks
-
-
-def shared_cache_witness(ctx, shim):
-    """the witness of known_C07_base_cache_shared through shape(): `11 -> 6 6` (MultipleSubst), mark 5; subtable 2
-    (base coverage {6}) alone attaches the mark to the second 6, preceded by subtable 1 (base coverage {1}, never
-    applies) it attaches it to the first 6.  Recorded, not judged (upstream-inherited; proposed known finding)."""
-    def font(two):
-        sub1 = {"mark_coverage": [5], "base_coverage": [1], "class_count": 1, "marks": [(0, (0, 0))], "bases": [[(111, 111)]]}
-        sub2 = {"mark_coverage": [5], "base_coverage": [6], "class_count": 1, "marks": [(0, (10, 20))], "bases": [[(300, 400)]]}
-        return {"num_glyphs": 12, "cmap": "pua", "advances": [0] + [500] * 11, "gdef": {"classes": {1: 1, 6: 1, 5: 3, 11: 1}},
-                "gsub": {"features": [{"tag": "ccmp", "lookups": [0]}],
-                         "lookups": [{"type": 2, "flag": 0, "subtables": [{"coverage": [11], "sequences": [[6, 6]]}]}]},
-                "gpos": {"features": [{"tag": "mark", "lookups": [0]}],
-                         "lookups": [{"type": 4, "flag": 0, "subtables": [sub1, sub2] if two else [sub2]}]}}
-    req = "shape W l - - 0 0 - - - e00a:0,e004:1"
-    res = []
-    for two in (False, True):
-        o = vlib.run_groups(shim, [[f"font W {fontbuild.hexfont(font(two))}", req]], nproc=1)[0]
-        out = parse_shape(o[1]) if o[0] == "ok" else None
-        res.append(None if out is None or len(out) != 3 else out[2][4])
-    ctx.note_search("markbase-shared-cache-witness", 2, 2, detail={
-        "mark_x_offset_subtable2_alone": res[0], "mark_x_offset_after_subtable1": res[1],
-        "finding_present": res[0] is not None and res[0] != res[1]},
-        rule="witness of known_C07_base_cache_shared through shape(); recorded only")
 
 
 def value_font(r, with_gpos=True, with_kern=True):
@@ -1372,7 +1373,6 @@ def run(ctx):
     d3_hook_seed(ctx, shim, plans)
     mark_chain_search(ctx, shim, ctx.rng("markchain"), ctx.budget(3000, 200000))
     attach_search(ctx, shim, ctx.rng("attach"), ctx.budget(150, 10000), ctx.budget(8, 12))
-    shared_cache_witness(ctx, shim)
     target_search(ctx, shim, ctx.rng("target"), ctx.budget(240, 12000), ctx.budget(10, 12))
     value_search(ctx, shim, ctx.rng("value"), ctx.budget(150, 10000), ctx.budget(8, 12), plans)
     # the one remaining known finding last, so that it never uses up the violation budget of the streams above
@@ -1398,8 +1398,11 @@ def replay(ctx, rp):
         return 1 if why else 0
     if stream == "gpos-target" and "sem" in rp:
         o = vlib.run_groups(shim, [[rp["font_line"], rp["plain_font_line"], rp["request"], rp["plain_request"]]], nproc=1)[0]
-        why = tg.check(intkeys(rp["sem"]), rp["text"], rp["dir"], rp["flags"], o[2], o[3])
-        print("font :", o[2]); print("plain:", o[3]); print("oracle:", why or "every expected attachment holds")
+        why, found = tg.check(intkeys(rp["sem"]), rp["text"], rp["dir"], rp["flags"], o[2], o[3])
+        print("font :", o[2]); print("plain:", o[3]); print("oracle:", why or "no departure outside the known classes")
+        for c, desc in found: print("class", c + ":", desc)
+        if "class" in rp:
+            return 1 if why or any(c == rp["class"] for c, _ in found) else 0
         return 1 if why else 0
     if stream == "value-shape" and "sem" in rp:
         o = vlib.run_groups(shim, [[rp["font_line"], rp["plain_font_line"], rp["request"], rp["plain_request"]]], nproc=1)[0]
